@@ -247,8 +247,15 @@ def getEvent (f : File) (i : Nat) (t : Tbl) : List Row :=
 def strided (start stop step : Nat) : List Nat :=
   (List.range ((stop - start + step - 1) / step)).map (fun k => start + k * step)
 
-/-- the cell with the largest start; among equal starts the last one
-(`np.where(starts == np.max(starts))[0][-1]`) -/
+/-- the furthest row any event of the chunk uses: `np.max(tmp_indices[:, 0] + tmp_indices[:, 1])` -/
+def maxEnd : List Cell → Option Nat
+  | [] => none
+  | c :: cs => match maxEnd cs with
+    | none => some (c.1 + c.2)
+    | some m => some (max (c.1 + c.2) m)
+
+/-- the block end the code used BEFORE the repair 4e94c15 (kept for the witness theorems): the cell with
+the largest start; among equal starts the last one (`np.where(starts == np.max(starts))[0][-1]`) -/
 def pickEnd : List Cell → Option Cell
   | [] => none
   | c :: cs => match pickEnd cs with
@@ -265,9 +272,8 @@ def minStart : List Cell → Option Nat
 raises -/
 def loadTable (f : File) (t : Tbl) (s e step : Nat) : Option (List (List Row)) :=
   let cells := (strided s e step).map (fun i => (f.index.getD i IxRow.default) t)
-  match minStart cells, pickEnd cells with
-  | some ts, some c =>
-    let te := c.1 + c.2
+  match minStart cells, maxEnd cells with
+  | some ts, some te =>
     let tmp := ((f.rows t).drop ts).take (te - ts)
     some (cells.map (fun sl => (tmp.drop (sl.1 - ts)).take sl.2))
   | _, _ => none
